@@ -2,8 +2,9 @@
 import os, subprocess
 from lib import fw
 
-MODULES = ["SunriseVerif.Props.C03", "SunriseVerif.Props.C03Pool", "SunriseVerif.Witness.C03"]
-GEN = ["KernelsSwap"]
+MODULES = ["SunriseVerif.Props.C03", "SunriseVerif.Props.C03Pool", "SunriseVerif.Witness.C03",
+           "SunriseVerif.Props.TieSwap"]
+GEN = ["KernelsSwap", "KernelsTieSwap"]
 
 
 def known_features(f):
